@@ -219,10 +219,14 @@ class StoreWorld:
                 o["post"] = env.dump()
             elif kind == "restart":
                 await self.settle()
+                o["pre"] = env.dump()
+                o["pre_full"] = env.dump(full=True)
                 await env.close()
                 await env.open(create=False)
                 await self.settle()
                 o["res"] = ["ok"]
+                o["post"] = env.dump()
+                o["post_full"] = env.dump(full=True)
             elif kind == "setroles":
                 try:
                     await st.set_auth_roles(op[1], op[2])
